@@ -690,9 +690,9 @@ PROPS["C02"]["explanation"] += " (LASTBLOCK) HLgetdatainfo takes a block for the
 PROPS["C09"]["rules"] = PROPS["C09"]["rules"] + [rules_gr.rule_image_record_fill_flag]
 PROPS["C09"]["explanation"] += " (FILLFLAG) every place that builds the record of a new-style image sets fill_img, so a data-less image is filled by its first partial write in any session."
 
-PROPS["C16"]["rules"] = PROPS["C16"]["rules"] + [rules_errors.rule_failed_release_detaches]
-PROPS["C16"]["explanation"] += " (DETACHFAIL) a special element's end-access routine detaches from the file on every exit that releases the access record, the failing ones included."
-PROPS["C13"]["rules"] = PROPS["C13"]["rules"] + [rules_errors.rule_failed_release_detaches]
+PROPS["C16"]["rules"] = PROPS["C16"]["rules"] + [rules_errors.rule_bit_io_count_checked]
+PROPS["C16"]["explanation"] += " (BITCOUNT) every Hbitread/Hbitwrite in the coders is compared with the bit count it asked for."
+PROPS["C05"]["rules"] = PROPS["C05"]["rules"] + [rules_errors.rule_bit_io_count_checked]
 
 NOT_APPLICABLE = {}
 
